@@ -223,8 +223,15 @@ fn tileset_decode(flags: u8) {
     buf[33] = 0;
     kani::assume(buf[34] < 0x80);
     let n = 35 + if flags & 1 != 0 { 8 } else { 0 } + if flags & 2 != 0 { 4 } else { 0 };
-    // keep the declared pixel count computable (overflow of the declared size is C04 / C12's subject)
-    kani::assume(rd32(&buf, 8) <= 0xffff);
+    // a loadable tileset has a tile size of at least 1x1 and exactly count*w*h pixels: the embedded variants carry no
+    // pixel bytes, so their tile count is 0 (count is symbolic in the linked-only variant)
+    kani::assume(rd16(&buf, 12) >= 1 && rd16(&buf, 14) >= 1);
+    if flags & 2 != 0 {
+        buf[8] = 0;
+        buf[9] = 0;
+        buf[10] = 0;
+        buf[11] = 0;
+    }
     let t = match crate::tileset::Tileset::<RawPixels>::parse_chunk(&buf[..n], PixelFormat::Rgba) {
         Ok(t) => t,
         Err(_) => {
@@ -246,7 +253,7 @@ fn tileset_decode(flags: u8) {
         }
     }
     assert!(t.pixels.is_some() == (flags & 2 != 0), "pixels present iff embedded");
-    kani::cover!(t.base_index() == -1 && t.tile_count() == 65535);
+    kani::cover!(t.base_index() == -1 && t.tile_size().width() == 65535);
     core::mem::forget(t);
 }
 #[kani::proof]
@@ -267,6 +274,6 @@ fn c01_q_tileset_embedded_and_linked() {
 #[kani::unwind(8)]
 #[kani::stub(alloc::fmt::format, crate::vklib::empty_format)]
 #[kani::stub(crate::reader::AseReader::unzip, crate::vklib::stub_unzip_identity)]
-fn c01_t_tileset_linked_only() {
+fn c01_q_tileset_linked_only() {
     tileset_decode(1);
 }
